@@ -67,6 +67,8 @@ pub struct Stats {
 }
 
 pub fn set_dealloc_observer(_f: Option<fn(BlockInfo)>) {}
+pub fn set_alloc_observer(_f: Option<fn(BlockInfo)>) {}
+pub fn set_alloc_hook(_f: Option<fn()>) {}
 pub fn set_track(_on: bool) -> bool {
     false
 }
